@@ -120,6 +120,13 @@ func genOp(r *verifsim.Rng, n int) ROp {
 		}
 	case "cookie":
 		op.A = fmt.Sprintf("c%d=v%d", r.Intn(2), n)
+		if r.Intn(3) == 0 {
+			// names that are prefixes of one another, and an options array built by assignment with a lifetime
+			// (C: 1 expire now (maxAge -1), 2 session (0), 3 an hour): every cookie() call before the commit is one
+			// Set-Cookie line of its own, whatever the other cookies are called
+			op.A = fmt.Sprintf("%s=v%d", verifsim.Pick(r, []string{"session", "session_id", "id", "identity_token", "sess"}), n)
+			op.C = r.Intn(4)
+		}
 	case "write":
 		op.A = fmt.Sprintf("w%d.", n)
 		switch r.Intn(20) {
@@ -347,6 +354,9 @@ func render(op ROp, v string) string {
 		return fmt.Sprintf("%s->header(%q, %q);", v, k, val)
 	case "cookie":
 		k, val, _ := strings.Cut(op.A, "=")
+		if op.C > 0 {
+			return fmt.Sprintf("$co = []; $co[\"path\"] = \"/\"; $co[\"maxAge\"] = %d; %s->cookie(%q, %q, $co);", []int{0, -1, 0, 3600}[op.C], v, k, val)
+		}
 		return fmt.Sprintf("%s->cookie(%q, %q, [\"path\" => \"/\"]);", v, k, val)
 	case "write":
 		return fmt.Sprintf("%s->write(%q);", v, op.A)
